@@ -135,7 +135,7 @@ func (e *TaskExecutor) ExecuteTasks(
 // validatedTxSenderMethodAndArgs validates the sender, method, and arguments for a transaction.
 func (e *TaskExecutor) validatedTxSenderMethodAndArgs(
 	traceCtx telemetry.TraceContext,
-	stub *cachestub.BatchCacheStub,
+	stub shim.ChaincodeStubInterface,
 	task *proto.Task,
 ) (*proto.Address, string, []string, error) {
 	_, span := e.TracingHandler.StartNewSpan(traceCtx, "TaskExecutor.validatedTxSenderMethodAndArgs")
@@ -232,8 +232,15 @@ func (e *TaskExecutor) ExecuteTask(
 
 	txCacheStub := stub.NewTxCacheStub(task.GetId())
 
+	// A query must leave nothing behind: neither the key-change record written while
+	// authenticating nor a consumed nonce, so it is validated on the read-only stub as well.
+	var validationStub shim.ChaincodeStubInterface = stub
+	if e.Chaincode.Router().IsQuery(e.Chaincode.Router().Method(task.GetMethod())) {
+		validationStub = newQueryStub(stub)
+	}
+
 	span.AddEvent("validating tx sender method and args")
-	senderAddress, method, args, err := e.validatedTxSenderMethodAndArgs(traceCtx, stub, task)
+	senderAddress, method, args, err := e.validatedTxSenderMethodAndArgs(traceCtx, validationStub, task)
 	if err != nil {
 		err = fmt.Errorf("failed to validate transaction sender, method, and arguments for task %s: %w", task.GetId(), err)
 		return handleTaskError(span, task, err)
